@@ -48,8 +48,10 @@ public final class Rat {
     private static Q neg(Q a) { return new Q(a.n.negate(), a.d, true); }
     private static Value[] elems(Value v) {
         Value t = (Value) v.toTuple();
-        if (t == null) throw new IllegalArgumentException("Rat: not a sequence: " + v);
-        return ((TupleValue) t).elems;
+        if (t != null) return ((TupleValue) t).elems;
+        Value f = (Value) v.toFcnRcd();          // any function with a finite domain: its values
+        if (f == null) throw new IllegalArgumentException("Rat: not a function: " + v);
+        return ((FcnRcdValue) f).values;
     }
 
     public static Value RAdd(Value a, Value b) { return out(add(parse(a), parse(b))); }
